@@ -12,6 +12,7 @@ inductive Op
   | ctxReg (persist : Bool)
   | ctxDereg | finalize | dispatch | loop | quit (code : Nat) | ctxLen | setTick (ns : Nat)
   | reg (handle : String) (name : String) (slot : Nat) (flags : ModFlags) (hooks : Hooks)
+  | unref (m : ModId)          -- the user drops the extra reference it holds on the module (m_mod_unref)
   | dereg (m : ModId) | start (m : ModId) | pause (m : ModId) | resume (m : ModId) | stop (m : ModId)
   | become (m : ModId) (h : Nat) | unbecome (m : ModId)
   | stash (m : ModId) (idx : Nat) | unstash (m : ModId) (n : Nat)
@@ -20,6 +21,7 @@ inductive Op
   | tell (m r : ModId) (payload : Nat) (af : Bool)
   | publish (m : ModId) (topic : Option String) (payload : Nat) (af : Bool)
   | pill (m r : ModId)
+  | burst (m r : ModId) (payload : Nat) (af : Bool) (count : Nat)
   | subscribe (m : ModId) (topic : String) (slot : Nat) (prio : Option Prio) (prioBits : Nat) (oneshot : Bool) (userptr : Nat)
   | unsubscribe (m : ModId) (topic : String)
   | regSrc (m : ModId) (paramOk : Bool) (src : Src) (prioBits : Nat)
@@ -61,7 +63,14 @@ def apiProg (c : Cfg) : Op → Prog Int
     let r ← apiRegister name slot flags hooks
     modify fun s => if r == 0 then { s with handles := (h, s.mods.length - 1) :: s.handles } else s
     pure r
-  | .dereg m => modDeregisterP m
+  | .dereg m => do
+    let r ← modDeregisterP m
+    -- ghost: a successful call consumed the user's reference
+    modify fun s => if r == 0 then { s with released := m :: s.released } else s
+    pure r
+  | .unref m => do
+    modify fun s => { s with unrefd := m :: s.unrefd }
+    pure 0
   | .start m => apiStart m
   | .pause m => apiPause m
   | .resume m => apiResume m
@@ -78,6 +87,7 @@ def apiProg (c : Cfg) : Op → Prog Int
   | .tell m r p af => apiTell m r p af
   | .publish m t p af => apiPublish m t p af
   | .pill m r => apiPill m r
+  | .burst m r p af n => burstP m r af n p 0
   | .subscribe m t sl p pb os u => apiSubscribe m t sl p pb os u
   | .unsubscribe m t => apiUnsubscribe m t
   | .regSrc m ok x pb => apiRegSrc m ok x pb
